@@ -469,7 +469,7 @@ LAWS = [
     Law('integer_arguments', check_unary, quick=1000, thorough=60000, shards=(4, 8),
         strategy=st.fixed_dictionaries({'f': st.sampled_from(['SQRT', 'ABS', 'LN', 'LOG10', 'ATAN', 'ASINH', 'DEGREES', 'RADIANS', 'ACOSH', 'ACOT']),
                                         'x': st.one_of(st.integers(2 ** 53, 10 ** 30), st.integers(-10 ** 30, -2 ** 53), st.sampled_from([10 ** 17, 2 ** 53, 2 ** 60 + 1, 3 ** 40, 10 ** 20 - 1, 2 ** 100]), st.integers(0, 1000),
-                                                       st.sampled_from([2 ** 1024, 10 ** 400, 2 ** 1023, 7 ** 500])),
+                                                       st.sampled_from([2 ** 1024, 10 ** 400, 2 ** 1023, 7 ** 500]), st.sampled_from([-(10 ** 16) - 1, -(10 ** 16) - 3, -(2 ** 60) - 1, -(10 ** 17) - 9, -(3 ** 40)])),      # negative integers whose double is not the integer (outside the domain of half of these functions)
                                         'how': st.sampled_from(['var', 'lit', 'text'])}),
         key=lambda c: c['f'], nontrivial=lambda c: abs(c['x']) >= 2 ** 53,
         rule='10 unary functions whose value exists for large arguments x Python integers of 2^53..10^30 (either sign; exact integers such as POWER(10,17) or a long literal produce) and 0..1000, '
